@@ -139,7 +139,9 @@ exception Too_many of int
 let max_frontier = ref 6000
 (* ghost history fields are write-only: two nodes that differ only there behave alike *)
 let erase (n : node) : node =
-  { n with n_state = { n.n_state with g_inserted = []; g_raised = []; g_started = [] } }
+  { n with n_state = { n.n_state with g_inserted = []; g_raised = []; g_started = []; g_discarded = []; g_failed = [];
+                                     g_taken = []; g_cycles = O; g_flush_ticks = O; g_flush_calls = O; g_flush_fired = O;
+                                     g_shutdowns = O } }
 let dedup (l : node list) : node list =
   let keyed = List.map (fun n -> (erase n, n)) l in
   let r = List.sort_uniq (fun (a, _) (b, _) -> Stdlib.compare a b) keyed in
